@@ -375,7 +375,12 @@ class Session:
         elif kd == 'pop':
             self.ret = md.pop(key)
         elif kd == 'popd':
-            self.ret = md.pop(key, '#default')
+            # defaults of several kinds, including one that IS the stored value (None, True and
+            # small ints are shared objects): the key must go whatever the default is
+            self.n += 1
+            cur = dict(md)
+            dflt = ['#default', None, cur.get(key, 7), True][self.n % 4]
+            self.ret = md.pop(key, dflt)
         elif kd == 'popitem':
             self.ret = md.popitem()
         elif kd == 'del':
